@@ -202,6 +202,21 @@ theorem sign_mul_self_pos (x : ℝ) (hx : x ≠ 0) : 0 < DTS.sign x * x ∧ DTS.
 
 namespace DTS
 
+/-- `_distance_to_surface_from` after the `np.mod`: the loop for an angle `a` that is already
+reduced.  In exact arithmetic `a ∈ [0, 2π)`; `np.mod` in floating point can also return `2π`
+itself (e.g. for `θ = -1e-17`), which is why the last bin is closed by `2π + eps`. -/
+def cpolyAt (R : M2 ℝ) (flip : Bool) (V : List (P2 ℝ)) (center : P2 ℝ) (a : ℝ) : Option ℝ :=
+  match binRows (alignedVerts R flip V center) with
+  | [] => none
+  | (first, x) :: rest => binsFold a first ((first, x) :: rest) none
+
+theorem cpolyDtsFrom_eq (R : M2 ℝ) (flip : Bool) (V : List (P2 ℝ)) (center : P2 ℝ) (θ : ℝ) :
+    cpolyDtsFrom R flip V center θ = cpolyAt R flip V center (fmod θ twoPi) := by
+  unfold cpolyDtsFrom cpolyAt
+  cases binRows (alignedVerts R flip V center) with
+  | nil => rfl
+  | cons r rest => rfl
+
 /-- the vertex angle the code computes -/
 def vang (p : P2 ℝ) : ℝ := fmod (Scalar.atan2 p.y p.x) twoPi
 
@@ -330,7 +345,7 @@ theorem binsFold_cover_lt (a : ℝ) (ha0 : 0 ≤ a) (f : P2 ℝ) (hlt : a < vang
       exact ih _ (by simp)
 
 /-- an angle at or above the first vertex angle of the chain falls into one of its bins -/
-theorem binsFold_cover_ge (a : ℝ) (ha2 : a < twoPi) (f : P2 ℝ) :
+theorem binsFold_cover_ge (a : ℝ) (ha2 : a ≤ twoPi) (f : P2 ℝ) :
     ∀ (W : List (P2 ℝ)) (acc : Option ℝ) (p : P2 ℝ) (T : List (P2 ℝ)), W = p :: T → vang p ≤ a →
       (binsFold a (vang f) (rowsAux f W) acc).isSome = true := by
   intro W
